@@ -427,6 +427,10 @@ func (r *run) opOpen(id, l, v, key, acc, how int, claim string, f, name int, o o
 			}
 			openOp = op
 			claimN = 2
+			if o.dt != 0 {
+				op.Opopen.Claim = &nfsv4.OpenClaim4_CLAIM_PREVIOUS{DelegateType: nfsv4.OpenDelegationType4(o.dt)}
+				claimN = 3
+			}
 		}
 	default:
 		return false
@@ -476,6 +480,9 @@ func (r *run) opOpen(id, l, v, key, acc, how int, claim string, f, name int, o o
 		}
 		if st == stStale && len(q.res.Resarray) > len(put) {
 			r.phantomOpen = expectLeaf
+		}
+		if st != stOK {
+			r.stepFailed = true
 		}
 		if openRes != nil && st == stOK {
 			m := kv(final)
@@ -1064,6 +1071,9 @@ func (r *run) opIO(id int, kind string, x, f int, o opts) bool {
 		}
 		if reached && st == stStale && x < 0 {
 			r.phantomOpen = q.ioLeaf
+		}
+		if st != stOK {
+			r.stepFailed = true
 		}
 		r.monitorIO(q, kind, st, reached)
 		r.compare(final, fmt.Sprintf("st=%d", st))
